@@ -83,7 +83,8 @@ def _run(ctx):
     }
     # reference quantity, k, alternative units for the measured quantity
     refs = [
-        ("1 W", 1 * U["watt"], 1, [U["watt"], P["milli"] * U["watt"], U["horsepower"], P["kilo"] * U["watt"], U["joule"] / U["second"]]),
+        ("1 W", 1 * U["watt"], 1, [U["watt"], P["milli"] * U["watt"], U["horsepower"], P["kilo"] * U["watt"], U["joule"] / U["second"], U["British thermal unit"] / U["hour"],
+                                    U["ton of refrigeration"], U["foot"] * U["pound-force"] / U["second"]]),
         ("1 mW", 1 * (P["milli"] * U["watt"]), 1, [U["watt"], P["micro"] * U["watt"], U["metric horsepower"]]),
         ("2.5 kW", 2.5 * (P["kilo"] * U["watt"]), 1, [U["watt"], U["electrical horsepower"]]),
         ("1 pW/m2", 1 * ((P["pico"] * U["watt"]) / U["meter"] ** 2), 1, [U["watt"] / U["meter"] ** 2, (P["milli"] * U["watt"]) / (P["centi"] * U["meter"]) ** 2]),
@@ -228,6 +229,17 @@ def _run(ctx):
             mid_a, mid_b = (a_si[0] + a_si[1]) / 2, (b_si[0] + b_si[1]) / 2
             if abs(mid_a - mid_b) > abs(mid_a) * (Fraction(1, 10**8) + Fraction(conv_rel) * 2):
                 ctx.violation("C18:round-trip:quantity-level-quantity", f"{q!r} -> {lv.magnitude!r} -> {q2!r}", case)
+            # the same round trip closed with the library's own conversion back into the quantity's unit: where the shipped
+            # definitions offer two routes that differ by more than rounding (BTU/h by way of the joule or of the ton of
+            # refrigeration), an oracle has to excuse either - but the level and the plain conversion have to take one
+            try:
+                with lib():
+                    q3 = q2.in_unit(q.unit)
+                ctx.count("round_trips/quantity-level-quantity-by-the-librarys-own-conversion")
+                if abs(D(q3.magnitude) - D(q.magnitude)) > abs(D(q.magnitude)) * Decimal("1e-9"):
+                    ctx.violation("C18:round-trip:quantity-level-quantity", f"{q!r} -> {lv.magnitude!r} -> {q2!r}, which the library itself converts back to {q3!r}", case)
+            except CNF:
+                ctx.count("round_trips/no_conversion_back")
         except Exception as e:
             ctx.violation(f"C18:round-trip:raised-{type(e).__name__}", f"{fname}[{rname}] x={x}: {e}", case)
         # a level compares equal (within rounding) to the quantity it denotes, both orders
